@@ -341,6 +341,29 @@ impl<'a> Walker<'a> {
                 }
                 Rw::InlineCall => {
                     if let Stmt::Expr(Expr::Call(f, args)) = &v[i] {
+                        if !args.is_empty() {
+                            // a void helper with scalar parameters: the call is a block that declares the
+                            // parameters as locals initialised with the arguments, followed by the body
+                            if let Some(callee) = self.prog_funcs.iter().find(|h| &h.name == f) {
+                                let captured = self.cur_locals.iter().any(|n| callee.body.iter().any(|s| stmt_mentions(s, n)));
+                                let ok = callee.ret.is_none()
+                                    && callee.params.len() == args.len()
+                                    && callee.params.iter().all(|(_, t)| *t != Ty::Ptr)
+                                    && !captured
+                                    && !callee.body.iter().any(|s| has_return_or_label(s))
+                                    // no argument may mention a parameter name of the callee
+                                    && !args.iter().any(|a| callee.params.iter().any(|(n, _)| crate::excl::mentions(a, n)));
+                                if ok && self.hit() {
+                                    let mut b: Vec<Stmt> = vec![];
+                                    for ((n, t), a) in callee.params.iter().zip(args.iter()) {
+                                        b.push(Stmt::Decl(VarDecl { name: n.clone(), ty: *t, kind: VarKind::Scalar, mem: MemQual::Default, explicit_sign: false, init: Some(a.clone()) }));
+                                    }
+                                    b.extend(callee.body.iter().cloned());
+                                    v[i] = Stmt::Block(b);
+                                    return;
+                                }
+                            }
+                        }
                         if args.is_empty() {
                             if let Some(callee) = self.prog_funcs.iter().find(|h| &h.name == f) {
                                 // hygiene: no local of the caller may capture a name the body uses
@@ -586,7 +609,7 @@ pub fn run(ctx: &mut RunCtx) -> i32 {
             }
             pbt::strategy(move |g| {
                 // pick a rewrite that has a site in the generated program (retry a few times)
-                let mut sem_case = sem::gen_case(g, &cfg, n_inits, &[0, 1], false);
+                let mut sem_case = sem::gen_case(g, &cfg, n_inits, &[0, 1], true);
                 let mut rw = ALL[g.below(ALL.len())];
                 for _ in 0..6 {
                     if rewrite(&sem_case.prog, rw, None).0 > 0 {
@@ -594,7 +617,7 @@ pub fn run(ctx: &mut RunCtx) -> i32 {
                     }
                     rw = ALL[g.below(ALL.len())];
                     if g.chance(1, 3) {
-                        sem_case = sem::gen_case(g, &cfg, n_inits, &[0, 1], false);
+                        sem_case = sem::gen_case(g, &cfg, n_inits, &[0, 1], true);
                     }
                 }
                 Case { sem: sem_case, rw, site: g.u32() % 1000 }
